@@ -637,4 +637,62 @@ theorem quiet_of_not_use {e : Eff} (ps : Promises) (h : ∀ p, e ≠ .use p) : Q
 theorem docN_perm {dflt pm F} {doc doc' : List Instr} (h : doc.Perm doc') :
     docN dflt pm F doc = docN dflt pm F doc' := sumBy_perm _ h
 
+theorem apply_ok_run {dflt g doc g' ps'} (h : apply dflt g doc = .ok (g', ps')) :
+    ∃ n sf, run dflt n (init g doc) = some (.ok sf) ∧ sf.g = g' ∧ sf.ps = ps' ∧ sf.deferred = [] := by
+  unfold apply at h
+  split at h
+  · cases h
+  · rename_i r hr
+    cases r with
+    | error e => simp [Except.bind] at h
+    | ok sf =>
+      simp only [Except.bind, finish] at h
+      split at h
+      · rename_i hd; cases h; exact ⟨_, sf, hr, rfl, rfl, hd⟩
+      · cases h
+
+theorem apply_ok_nodup {dflt g doc g' ps'} (h : apply dflt g doc = .ok (g', ps')) :
+    (ps'.map Prod.fst).Nodup := by
+  obtain ⟨n, sf, hr, _, hps, _⟩ := apply_ok_run h
+  have := (run_ps n _ sf hr).2 (by simp [init])
+  rwa [hps] at this
+
+theorem mem_iff_lookup (l : Promises) (hn : (l.map Prod.fst).Nodup) (p : Str) (i : Id) :
+    (p, i) ∈ l ↔ l.lookup p = some i := by
+  induction l with
+  | nil => simp
+  | cons x t ih =>
+    obtain ⟨k, v⟩ := x
+    simp only [List.map_cons, List.nodup_cons] at hn
+    simp only [List.mem_cons, Prod.mk.injEq, List.lookup]
+    by_cases hk : p = k
+    · subst hk
+      simp only [BEq.rfl, true_and]
+      constructor
+      · rintro (rfl | hm)
+        · rfl
+        · exact absurd (List.mem_map_of_mem (f := Prod.fst) hm) hn.1
+      · intro h; cases h; exact Or.inl rfl
+    · have : (p == k) = false := by simp [hk]
+      simp [this, hk, ih hn.2]
+
+theorem lookup_of_perm {l l' : Promises} (hp : l.Perm l') (hn : (l.map Prod.fst).Nodup)
+    (hn' : (l'.map Prod.fst).Nodup) (p : Str) : l.lookup p = l'.lookup p := by
+  cases h : l.lookup p with
+  | some i =>
+    have := (mem_iff_lookup l hn p i).mpr h
+    exact ((mem_iff_lookup l' hn' p i).mp (hp.mem_iff.mp this)).symm
+  | none =>
+    cases h' : l'.lookup p with
+    | none => rfl
+    | some j =>
+      have := (mem_iff_lookup l' hn' p j).mpr h'
+      have := (mem_iff_lookup l hn p j).mp (hp.mem_iff.mpr this)
+      rw [h] at this; cases this
+
+theorem members_perm {g g' : Graph} (h : g.edges.Perm g'.edges) (o : Id) (a : Str) :
+    (g.members o a).Perm (g'.members o a) := by
+  unfold Graph.members
+  exact (h.filter _).map _
+
 end Capella.Decl
